@@ -59,6 +59,14 @@ impl<M> OwnView for WeakSender<M> { open spec fn own(&self) -> Own { Own { none:
 impl<M> OwnView for Sender<M> { open spec fn own(&self) -> Own { Own { none: false, chan: self.chan(), s_tx: true, s_force: true, w_tx: false, w_force: false, mixed: false } } }
 impl<M> WeakSenderRest<M> { pub uninterp spec fn chan(&self) -> int; }
 impl<M> WeakSender<M> { pub open spec fn chan(&self) -> int { self.rest.chan() } }
+impl<M> WeakSender<M> {
+    // weak_sender.rs WeakSender::upgrade (proved in unit h_sender): a STRONG Sender in the hands of the caller for as long as it is kept
+    // (recorded as an event, so that code which is meant only to pass the weak handle on shows it when it starts holding the actor)
+    #[verifier::external_body]
+    pub fn upgrade(&self, Tracked(w): Tracked<&mut World>) -> (r: Option<Sender<M>>)
+        ensures r is Some ==> r->0.chan() == self.chan() && emits(old(w), final(w), Ev::Upgraded { chan: self.chan() }), r is None ==> same_world(old(w), final(w))
+    { unimplemented!() }
+}
 // weak_sender.rs `impl Clone for WeakSender` (proved in unit h_sender: weak, same actor)
 impl<M> Clone for WeakSender<M> { #[verifier::external_body] fn clone(&self) -> (r: Self) ensures r == *self { unimplemented!() } }
 impl<M> Sender<M> {
